@@ -70,7 +70,7 @@ struct TrapState {
     volatile std::uint64_t guard_entries{0};   // progress counter (hang detection)
     std::uint64_t last_seen_entries{0};
     int stalled_ticks{0};
-    int hang_ticks{20};                        // seconds without progress inside one guard
+    int hang_ticks{30};                        // CPU-seconds without a new guard entry inside one guard
     std::function<void()> in_handler_hook;     // C05: snapshot comparison inside the handler
     std::uint64_t san_hits_at_handler{0};
 };
@@ -111,14 +111,14 @@ inline volatile std::uint64_t g_crash_count  = 0;
 inline void on_signal(int sig)
 {
     auto& s = traps();
-    if (sig == SIGALRM) {
+    if (sig == SIGVTALRM) {
         if (s.jb == nullptr) { return; }
         if (s.guard_entries == s.last_seen_entries) {
             if (++s.stalled_ticks >= s.hang_ticks) {
                 s.stalled_ticks = 0;
                 sigset_t m;
                 sigemptyset(&m);
-                sigaddset(&m, SIGALRM);
+                sigaddset(&m, SIGVTALRM);
                 sigprocmask(SIG_UNBLOCK, &m, nullptr);
                 trap_jump(Trap::hang);
             }
@@ -152,11 +152,12 @@ inline void install_signal_handlers()
     sb.sa_handler = on_signal;
     sb.sa_flags   = SA_ONSTACK;
     sigemptyset(&sb.sa_mask);
-    sigaction(SIGALRM, &sb, nullptr);
+    sigaction(SIGVTALRM, &sb, nullptr);
     itimerval tv{};
     tv.it_interval.tv_sec = 1;
     tv.it_value.tv_sec    = 1;
-    setitimer(ITIMER_REAL, &tv, nullptr);
+    // CPU time of this process, not wall time: a loaded machine must not look like a hang
+    setitimer(ITIMER_VIRTUAL, &tv, nullptr);
 }
 
 /// Runs f(); returns which trap ended it (Trap::none = returned normally).
